@@ -29,6 +29,13 @@ fn gen_named_lp(rng: &mut ChaCha8Rng) -> LmSpec {
             r.name = format!("n{i}");
         }
     }
+    // one model in ten gives three or more rows the same name (the compiler renames them name, name__2, ...)
+    if spec.rows.len() >= 3 && rng.gen_bool(0.1) {
+        let k = rng.gen_range(3..=spec.rows.len());
+        for r in spec.rows.iter_mut().take(k) {
+            r.name = "dup".to_string();
+        }
+    }
     // one model in eight lives in other units: objective in millionths, or rows in millions
     match rng.gen_range(0..16) {
         0 => {
@@ -156,9 +163,13 @@ fn door(which: &str, spec: &LmSpec, lm: &rooc::LinearModel) -> Reported {
             match mb.solve_with(rooc::Clarabel) {
                 Ok(bs) => {
                     let mut v = vec![];
-                    for r in &spec.rows {
-                        if let Some(p) = bs.shadow_price(&r.name) {
-                            v.push((r.name.clone(), p));
+                    for (i, r) in spec.rows.iter().enumerate() {
+                        let k = spec.rows[..i].iter().filter(|q| q.name == r.name && q.a.iter().any(|c| *c != 0.0)).count();
+                        let name = if r.name.is_empty() || k == 0 { r.name.clone() } else { format!("{}__{}", r.name, k + 1) };
+                        if let Some(p) = bs.shadow_price(&name) {
+                            if !v.iter().any(|(n, _): &(String, f64)| *n == name) {
+                                v.push((name, p));
+                            }
                         }
                     }
                     // anything else the underlying solution lists
@@ -288,6 +299,26 @@ impl Driver for C20 {
                     "exact_sensitivities": spec.rows.iter().zip(&slopes).map(|(r, s)| format!("{}: {}", if r.name.is_empty() { "(unnamed)" } else { &r.name }, show(s.as_ref().unwrap()))).collect::<Vec<_>>(),
                     "reported": extra})
                 };
+                // the compiler de-duplicates row names: the k-th row called n is reported as n__k
+                let has_dups = spec.rows.iter().enumerate().any(|(i, r)| !r.name.is_empty() && spec.rows[..i].iter().any(|q| q.name == r.name));
+                if has_dups && *which == "linear-model" {
+                    // a hand-made LinearModel keeps the duplicate names and its price map can hold only one of them
+                    out.tag("linear-model:duplicate-names-skipped");
+                    continue;
+                }
+                let reported_names: Vec<String> = spec
+                    .rows
+                    .iter()
+                    .enumerate()
+                    .map(|(i, r)| {
+                        // rows without variables are checked and removed at compile time: they do not count
+                        let k = spec.rows[..i].iter().filter(|q| q.name == r.name && q.a.iter().any(|c| *c != 0.0)).count();
+                        if r.name.is_empty() || k == 0 { r.name.clone() } else { format!("{}__{}", r.name, k + 1) }
+                    })
+                    .collect();
+                if has_dups {
+                    out.tag("duplicate-row-names");
+                }
                 match rep {
                     Reported::NoAnswer(k) => out.tag(&format!("{which}:no-answer:{}", k.split(':').next().unwrap_or(""))),
                     Reported::Panic(p) => out.inconclusive(&format!("panic (C18's concern): {}", p.chars().take(40).collect::<String>())),
@@ -311,15 +342,22 @@ impl Driver for C20 {
                         let pre = if *which == "linear-model" { None } else { compiled_differs(&spec) };
                         // unnamed rows report none; nothing but the model's named rows is listed
                         for (n, _) in &prices {
-                            if n.is_empty() || !spec.rows.iter().any(|r| r.name == *n) {
+                            if n.is_empty() || !reported_names.iter().any(|r| r == n) {
                                 out.violation(&format!("{which}:shadow-price-for-unknown-or-unnamed-row"), &format!("a shadow price is reported under the name '{n}'"), detail(reported.clone()));
                                 bad = true;
                             }
                         }
-                        for (r, s) in spec.rows.iter().zip(&slopes) {
-                            if r.name.is_empty() {
+                        for ((r0, s), rname) in spec.rows.iter().zip(&slopes).zip(&reported_names) {
+                            if r0.name.is_empty() {
                                 continue;
                             }
+                            if has_dups && r0.a.iter().all(|c| *c == 0.0) {
+                                // removed at compile time; its would-be name belongs to the next row of that name
+                                continue;
+                            }
+                            let mut r = r0.clone();
+                            r.name = rname.clone();
+                            let r = &r;
                             let want = s.as_ref().unwrap();
                             let wf = to_f64(want);
                             let class = format!("{}{}:{}", spec.sense, r.rel, if want.is_zero() { "inactive" } else if want.is_positive() { "positive" } else { "negative" });
@@ -375,7 +413,7 @@ impl Driver for C20 {
         Some((format!("never-returns({})", c.kind), format!("worker ended with {}", c.kind)))
     }
     fn rule(&self) -> String {
-        "continuous LPs (<=5 variables, <=5 rows, named and unnamed rows, <=, >= and = rows, min and max, offsets, free / bounded / half-bounded variables). The exact rational LP solver computes the optimum and, for every row, the four difference quotients of the optimal value for right-hand side changes of +-1/8 and +-1/16; a model is used only when all four coincide for every row (value differentiable in every right-hand side: the dual solution is unique). Three doors: solve_real_lp_problem_clarabel on the LinearModel, ModelBuilder::solve_with(Clarabel) + shadow_price(name), source text through RoocSolver. Every named row must carry a price equal to the exact slope within 1e-5 of the model's largest price (at least 1e-5 absolute); one model in eight has its objective scaled by 1e-6 or its rows by 1e6 so that genuine prices of 1e-6 occur - there the comparison is coarse: within 30% of the largest price and never finer than 3e-7, enough to see a price that was dropped, zeroed or flipped (inactive rows: 0), no price may be listed for an unnamed or unknown row. non-trivial = distinct (door, model) with all prices confirmed".into()
+        "continuous LPs (<=5 variables, <=5 rows, named and unnamed rows, <=, >= and = rows, min and max, offsets, free / bounded / half-bounded variables). The exact rational LP solver computes the optimum and, for every row, the four difference quotients of the optimal value for right-hand side changes of +-1/8 and +-1/16; a model is used only when all four coincide for every row (value differentiable in every right-hand side: the dual solution is unique). Three doors: solve_real_lp_problem_clarabel on the LinearModel, ModelBuilder::solve_with(Clarabel) + shadow_price(name), source text through RoocSolver. Every named row must carry a price equal to the exact slope within 1e-5 of the model's largest price (at least 1e-5 absolute); one model in eight has its objective scaled by 1e-6 or its rows by 1e6 so that genuine prices of 1e-6 occur - there the comparison is coarse: within 30% of the largest price and never finer than 3e-7, enough to see a price that was dropped, zeroed or flipped (inactive rows: 0), no price may be listed for an unnamed or unknown row; one model in ten names three or more rows alike, the k-th of them must be reported as name__k (builder and text doors). non-trivial = distinct (door, model) with all prices confirmed".into()
     }
     fn thresholds(&self, tier: Tier) -> Thresholds {
         let s = tier.pick(4, 40);
@@ -397,6 +435,7 @@ impl Driver for C20 {
                 ("builder:all-prices-agree", 300 * s),
                 ("text:all-prices-agree", 300 * s),
                 ("tiny-price-model", 20 * s),
+                ("duplicate-row-names", 50 * s),
             ],
             min_nontrivial: 1500 * s,
         }
